@@ -18,8 +18,9 @@ RULE = ("(a) direct: the real PedigreeDPTable (child process) on pedigrees {trio
         "alleles, ties included) and L1 (child allele in the parent's genotype, equal to the parent's allele on the "
         "haplotype selected by the transmission value, non-tie pairs reproduce the genotype); instances with a column "
         "admitting no assignment must raise 'Mendelian conflict' and only those. (b) CLI: `whatshap phase --ped` on "
-        "synthetic trios/quartets (children built by synth.inherit with recombination, shuffled VCF sample order, "
-        "sometimes an unrelated sample), reads for all/some/none of the members, uniform (--recombrate) and --genmap "
+        "synthetic families with 1-3 children (sometimes two independent families; children built by synth.inherit with "
+        "recombination), RANDOM sample names, VCF column order and PED line order shuffled independently of the roles, "
+        "sometimes an unrelated sample; the trios of the PED file (not those the run reports) are the ground truth of L1; reads for all/some/none of the members, uniform (--recombrate) and --genmap "
         "costs, --no-genetic-haplotyping, injected Mendelian conflicts / missing genotypes / untrue genotypes; per variant "
         "Coq evaluates the property text on (input genotypes, output calls a|b:PS, traced transmission value) and the "
         "model chain accessible -> get_alleles -> write_call against trace and output. One evaluation = one column / "
@@ -226,7 +227,10 @@ def run_cli_case(ctx, spec, wd):
 
 
 def evaluate_cli(ctx, runs, perturb=None):
-    cases, meta = [], []
+    """L1 is evaluated against the trios of the PED FILE (the ground truth of the property), L2 against the trios the
+    run itself used (trace); if the two differ the model no longer describes the run (L2 disagreement) and L1 is
+    evaluated without a reported transmission for the PED's trios."""
+    l1_cases, l1_meta, l2_cases, l2_meta, trio_mismatch = [], [], [], [], []
     for run in runs:
         spec = run["spec"]
         replay = {"cli": spec}
@@ -235,68 +239,112 @@ def evaluate_cli(ctx, runs, perturb=None):
         ctx.tally("cli.cost." + spec["cost"])
         ctx.tally("cli.genetic." + str(spec["genetic"]))
         ctx.tally("cli.reads_members", len(spec["reads_for"]))
+        # is a later PED line's child alphabetically smaller than everything merged before it?
+        for fam in spec["families"]:
+            seen = []
+            for ch, fa, mo in spec["ped_lines"]:
+                if ch in fam["children"]:
+                    if seen and ch < min(seen):
+                        ctx.tally("cli.ped_later_child_sorts_first")
+                    seen += [ch, fa, mo]
         if run["rc"] != 0:
             ctx.count(json.dumps(spec, sort_keys=True), nontrivial=False)
             sig = "phase:mendelian-conflict-raised" if "Mendelian conflict" in run["err"] else "phase:crash"
             ctx.violation(sig, f"whatshap phase --ped failed (exit {run['rc']}): {run['err'][-500:]}", replay)
             continue
-        fams = [tr for tr in run["traces"] if len(tr["family"]) > 1]
-        if len(fams) != len(run["chroms"]):
-            ctx.violation("phase:family-not-traced", f"expected one family instance per chromosome, trace has {len(fams)} "
-                          f"for {run['chroms']} (families: {[t['family'] for t in run['traces']]})", replay)
-            continue
         if perturb:
             perturb(run)
-        for tr in fams:
-            if sorted(tr["family"]) != sorted(spec["members"]):
-                ctx.violation("phase:family-not-traced", f"family {tr['family']} != PED members {spec['members']}", replay)
-                continue
-            term, cmeta, ts = md.cli_case_term(tr, run["gts"], run["calls"])
-            cases.append(term)
-            meta.append((replay, tr, cmeta, ts))
-            for m in cmeta:
-                conflict = md.py_conflict({"triples": ts}, m["gs"])
-                missing = any(not g for g in m["gs"])
-                child_phased = any(m["calls"][c] is not None for _, _, c in ts)
-                ctx.count((spec["seed"], tr["chromosome"], m["pos"]), nontrivial=child_phased or conflict or missing)
-                ctx.tally("cli.variants")
-                ctx.tally("cli.conflict_variants", int(conflict))
-                ctx.tally("cli.missing_variants", int(missing))
-                ctx.tally("cli.child_phased_calls", sum(1 for _, _, c in ts if m["calls"][c] is not None))
-                ctx.tally("cli.accessible", int(m["acc"]))
-                forced = [c for f, mo, c in ts if len(set(m["gs"][c])) == 2 and
-                          (len(set(m["gs"][f])) == 1 or len(set(m["gs"][mo])) == 1) and not conflict and not missing]
-                ctx.tally("cli.forced_child_calls", len(forced))
-            tvs = tr["transmission_vector"]
-            ctx.tally("cli.transmission_changes", sum(1 for a, b in zip(tvs, tvs[1:]) if a != b))
-    if len(ctx.samples) < 4 and meta:
-        replay, tr, cmeta, ts = meta[0]
+        traced = {}
+        for tr in run["traces"]:
+            traced.setdefault((tr["chromosome"], frozenset(tr["family"])), []).append(tr)
+        for fam in spec["families"]:
+            members = [fam["father"], fam["mother"]] + fam["children"]
+            ped_trios = [tuple(l) for l in spec["ped_lines"] if l[0] in fam["children"]]      # (child, father, mother)
+            for chrom in run["chroms"]:
+                trs = traced.get((chrom, frozenset(members)), [])
+                if len(trs) != 1:
+                    # the run did not treat the PED family as one family: the model does not describe it; the property
+                    # is still evaluated on the output alone (no transmission reported)
+                    trio_mismatch.append({"cli": spec, "chromosome": chrom, "ped_family": members, "traced_families":
+                                          [t["family"] for t in run["traces"] if t["chromosome"] == chrom]})
+                    fam_order = [x for x in spec["samples"] if x in members]
+                    tr = {"family": fam_order, "trios": [], "chromosome": chrom, "accessible_positions": [],
+                          "numeric_ids": {x: i for i, x in enumerate(fam_order)}, "reads": [], "partitioning": [],
+                          "superreads": [([], []) for _ in fam_order], "transmission_vector": [],
+                          "genetic_haplotyping": spec["genetic"]}
+                    idx = {x: i for i, x in enumerate(fam_order)}
+                    ped_ts = [(idx[f], idx[m], idx[c]) for c, f, m in ped_trios]
+                    term1, cmeta, ts1 = md.cli_case_term(tr, run["gts"], run["calls"], ts=ped_ts, with_tv=False)
+                    l1_cases.append(term1)
+                    l1_meta.append((replay, tr, cmeta, ts1))
+                    for m in cmeta:
+                        ctx.count((spec["seed"], chrom, members[0], m["pos"]), nontrivial=False)
+                    continue
+                tr = trs[0]
+                idx = {s: i for i, s in enumerate(tr["family"])}
+                ped_ts = [(idx[f], idx[m], idx[c]) for c, f, m in ped_trios]
+                trace_ts = [(idx[f], idx[m], idx[c]) for c, f, m in tr["trios"]]
+                same = sorted(ped_ts) == sorted(trace_ts)
+                if same:
+                    term1, cmeta, ts1 = md.cli_case_term(tr, run["gts"], run["calls"])
+                else:
+                    trio_mismatch.append({"cli": spec, "chromosome": chrom, "ped_trios": ped_trios, "traced_trios": tr["trios"]})
+                    term1, cmeta, ts1 = md.cli_case_term(tr, run["gts"], run["calls"], ts=ped_ts, with_tv=False)
+                l1_cases.append(term1)
+                l1_meta.append((replay, tr, cmeta, ts1))
+                term2, _, ts2 = md.cli_case_term(tr, run["gts"], run["calls"])
+                l2_cases.append(term2)
+                l2_meta.append((replay, tr))
+                ts = ts1
+                for m in cmeta:
+                    conflict = md.py_conflict({"triples": ts}, m["gs"])
+                    missing = any(not g for g in m["gs"])
+                    child_phased = any(m["calls"][c] is not None for _, _, c in ts)
+                    ctx.count((spec["seed"], chrom, members[0], m["pos"]), nontrivial=child_phased or conflict or missing)
+                    ctx.tally("cli.variants")
+                    ctx.tally("cli.conflict_variants", int(conflict))
+                    ctx.tally("cli.missing_variants", int(missing))
+                    ctx.tally("cli.child_phased_calls", sum(1 for _, _, c in ts if m["calls"][c] is not None))
+                    ctx.tally("cli.accessible", int(m["acc"]))
+                    forced = [c for f, mo, c in ts if len(set(m["gs"][c])) == 2 and
+                              (len(set(m["gs"][f])) == 1 or len(set(m["gs"][mo])) == 1) and not conflict and not missing]
+                    ctx.tally("cli.forced_child_calls", len(forced))
+                tvs = tr["transmission_vector"]
+                ctx.tally("cli.transmission_changes", sum(1 for a, b in zip(tvs, tvs[1:]) if a != b))
+    if len(ctx.samples) < 4 and l1_meta:
+        replay, tr, cmeta, ts = l1_meta[0]
         ctx.sample({"cli_spec": replay["cli"], "family": tr["family"], "trios": tr["trios"],
                     "transmission_vector": tr["transmission_vector"], "variants": cmeta[:6]})
-    if not cases:
+    if trio_mismatch:
+        ctx.disagreements_checked += len(trio_mismatch)
+        ctx.l2_disagreement("cli: trios used by the run differ from the trios of the PED file", trio_mismatch)
+    if not l1_cases:
         return
-    failing, errors = eval_checks("C05cli", HEADER, {"L1": "cli_l1", "L2": "cli_l2"}, cases, shard=60)
+    failing, errors = eval_checks("C05cli1", HEADER, {"L1": "cli_l1"}, l1_cases, shard=60)
     if errors:
         raise RuntimeError("coq evaluation failed: " + errors[0][1])
     for i in failing["L1"]:
-        replay, tr, cmeta, ts = meta[i]
+        replay, tr, cmeta, ts = l1_meta[i]
         ctx.violation(classify_cli(tr, cmeta, ts),
                       f"output of `whatshap phase --ped` violates the property on chromosome {tr['chromosome']} "
-                      f"(family {tr['family']}, trios (f,m,c) {ts}, transmission {tr['transmission_vector']} at "
-                      f"{tr['accessible_positions']}): variants {describe(tr, cmeta, ts)}", replay)
+                      f"(family {tr['family']}, PED trios (f,m,c) {ts}, trios used by the run (c,f,m) {tr['trios']}, "
+                      f"transmission {tr['transmission_vector']} at {tr['accessible_positions']}): variants "
+                      f"{describe(tr, cmeta, ts)}", replay)
+    failing, errors = eval_checks("C05cli2", HEADER, {"L2": "cli_l2"}, l2_cases, shard=60)
+    if errors:
+        raise RuntimeError("coq evaluation failed: " + errors[0][1])
     if failing["L2"]:
         ctx.disagreements_checked += len(failing["L2"])
         ctx.l2_disagreement("cli: model chain accessible/get_alleles/write_call vs trace and output VCF",
-                            [{"cli": meta[i][0]["cli"], "chromosome": meta[i][1]["chromosome"]} for i in failing["L2"]])
+                            [{"cli": l2_meta[i][0]["cli"], "chromosome": l2_meta[i][1]["chromosome"]} for i in failing["L2"]])
 
 
 def py_variant_problems(tr, m, ts):
     """python mirror of Mendel.c05_variant_ok -> list of problem classes (used only to label / describe a violation
-    that Coq found)"""
+    that Coq found); m["tv"] is the transmission value handed to Coq for this variant (None = none reported)"""
     out = []
     gs, cs = m["gs"], m["calls"]
-    acc = {p: j for j, p in enumerate(tr["accessible_positions"])}
-    t = tr["transmission_vector"][acc[m["pos"]]] if m["pos"] in acc else None
+    t = m.get("tv")
     for k, (f, mo, c) in enumerate(ts):
         if cs[c] is None:
             continue
@@ -322,7 +370,7 @@ def classify_cli(tr, cmeta, ts):
     kinds = set()
     for m in cmeta:
         kinds.update(py_variant_problems(tr, m, ts))
-    for k in ("conflict-or-missing-phased", "allele-not-in-parent", "transmission-mismatch", "forced-unphased"):
+    for k in ("conflict-or-missing-phased", "allele-not-in-parent", "forced-unphased", "transmission-mismatch"):
         if k in kinds:
             return "phase-ped:" + k
     return "phase-ped:other"
